@@ -67,6 +67,8 @@ REQUIRED_THEOREMS = [
     "wholeStep_euler", "wholeStep_rk4", "cellStep_conserves", "cellRun_conserves", "cellRuns_conserves", "cellSteps_conserve",
     "cart1_run_conserves", "cart2_run_conserves", "cart3_run_conserves", "polar_run_conserves", "sph_run_conserves",
     "cyl_run_conserves",
+    "d1_fun_sum_flux", "faceFlux_zero", "cart2_divergence_sum", "cart3_divergence_sum",
+    "cyl_divergence_sum", "cyl_divergence_defect", "cyl_divergence_not_conservative",
 ]
 MIN_LEGS = {"run": 24}
 RULE = ("integral leg: seed-derived grids of all classes, integer field data, one random condition per side of any class "
@@ -430,7 +432,7 @@ def run(ctx):
     jobs = []
     for k in range(n_int):
         if k % 4 == 3:
-            op, rank, classes = "divergence", 1, ("cart", "sph", "polar")
+            op, rank, classes = "divergence", 1, ("cart", "sph", "polar", "cyl")
         else:
             op, rank, classes = "laplace", 0, None
         c = gen_case_rank(rng, rank, ctx.hist, classes, max_axes=3)
